@@ -486,8 +486,8 @@ def toStr (R : Ring α) (f : BPoly α) : String :=
 /-- `parseExponent` -/
 def parseExponent (s : String) : Option Nat := if s == "" then some 1 else parseUint s
 
-/-- `polynomialStringToMap` -/
-def stringToMap (R : Ring α) (s : String) : Except Kind (List (Deg × α)) :=
+/-- `polynomialStringToMap` through the general regular-expression engine (`partial`) -/
+def stringToMapRx (R : Ring α) (s : String) : Except Kind (List (Deg × α)) :=
   let F := R.F
   let xOrYenv := fun e =>
     if e == "regexp.QuoteMeta((*varNames)[0])" then some (quoteMeta R.varNames.1)
@@ -545,6 +545,23 @@ def stringToMap (R : Ring α) (s : String) : Except Kind (List (Deg × α)) :=
                       | none => .error .conversion
                       | some y => go t (UPoly.mapAdd F out (x, y) c)
         go ms.toList []
+
+/-- the names for which the total tokeniser `Parse.matchesB` is used -/
+def directOK (R : Ring α) : Bool :=
+  Parse.simpleName R.varNames.1 && Parse.simpleName R.varNames.2 &&
+    (match R.F.ownVar with
+     | none => true
+     | some w => Parse.simpleName w && Parse.unconf R.varNames.1 w && Parse.unconf R.varNames.2 w)
+
+/-- `polynomialStringToMap`: matches from the total tokeniser for simple names (`none` = the
+    matches do not cover the input: Parsing error), post-processing of `stringToMapRx` -/
+def stringToMap (R : Ring α) (s : String) : Except Kind (List (Deg × α)) :=
+  if directOK R then
+    match Parse.matchesB R.F.ownVar R.varNames.1 R.varNames.2 s with
+    | none => .error .parsing
+    | some ms =>
+      stringToMapRx.go R.F (UPoly.strLower R.varNames.1) (UPoly.strLower R.varNames.2) ms []
+  else stringToMapRx R s
 
 /-- `PolynomialFromString` -/
 def parse (R : Ring α) (s : String) : Except Kind (Option (BPoly α)) :=
